@@ -72,7 +72,77 @@ fn reference(f: F, data: &[u8], a4: (Ipv4Addr, Ipv4Addr), a6: (Ipv6Addr, Ipv6Add
     (wire::cksum(&d, ps), ps)
 }
 
+pub fn replay(path: &str) -> i32 {
+    let s = std::fs::read_to_string(path).expect("MACHINERY: cannot read replay file");
+    let v: serde_json::Value = serde_json::from_str(&s).expect("MACHINERY: replay JSON");
+    let r = if v.get("replay").is_some() { &v["replay"] } else { &v };
+    let addr4 = [
+        (Ipv4Addr::new(0, 0, 0, 0), Ipv4Addr::new(0, 0, 0, 0)),
+        (Ipv4Addr::new(255, 255, 255, 255), Ipv4Addr::new(255, 255, 255, 255)),
+        (Ipv4Addr::new(192, 168, 1, 21), Ipv4Addr::new(142, 250, 204, 142)),
+    ];
+    let addr6: [(Ipv6Addr, Ipv6Addr); 3] = [
+        (Ipv6Addr::UNSPECIFIED, Ipv6Addr::UNSPECIFIED),
+        (Ipv6Addr::from(u128::MAX), Ipv6Addr::from(u128::MAX)),
+        ("2a00:23c7:b8a1:7a01:c4f:6e2f:b2f9:87d8".parse().unwrap(), "2a00:1450:4009:81f::200e".parse().unwrap()),
+    ];
+    if let Some(name) = r.get("function").and_then(|x| x.as_str()) {
+        let f = [F::Ipv4Header, F::Icmp4, F::Icmp6, F::Udp4, F::Tcp4, F::Udp6].into_iter().find(|f| f.name() == name).expect("MACHINERY: function");
+        let len = r["len"].as_u64().unwrap() as usize;
+        let (_, off, ..) = f.meta();
+        let (data, ai): (Vec<u8>, usize) = match r.get("data").and_then(|d| d.as_array()) {
+            Some(d) => (d.iter().map(|b| b.as_u64().unwrap() as u8).collect(), r["addr_pair"].as_u64().unwrap_or(2) as usize),
+            None => {
+                let mut c = vec![0x11u8; len];
+                c[off + 2..off + 4].copy_from_slice(&(r["adjacent"].as_u64().unwrap() as u16).to_be_bytes());
+                (c, 2)
+            }
+        };
+        let (want, ps) = reference(f, &data, addr4[ai], addr6[ai]);
+        let got = f.call(&data, addr4[ai], addr6[ai]);
+        let mut d = data.clone();
+        d[off..off + 2].copy_from_slice(&got.to_be_bytes());
+        println!("{name}({} octets) = {got:#06x}; RFC 1071 reference {want:#06x}; verifies after insertion: {}", data.len(), wire::verifies(&d, ps));
+        if got == want && wire::verifies(&d, ps) {
+            println!("replay: property held");
+            return 0;
+        }
+        println!("VIOLATION property=C13 replay={path}");
+        return 1;
+    }
+    // Paris dispatch
+    let name = r["cell"].as_str().unwrap();
+    let cell = drive::all_cells().into_iter().find(|c| c.name() == name).expect("MACHINERY: cell");
+    let seq = r["sequence"].as_u64().unwrap() as u16;
+    let p = TraceParams { packet_size: if cell.v6 { 96 } else { 84 }, ..TraceParams::default() };
+    let net = drive::net_cfg(&cell, &p, drive::topo_linear(&cell, 1, Target::Silent), Menu::default());
+    simnet::install(net, Chooser::new(&[], 0));
+    let ok = {
+        let mut ch = drive::make_channel(&cell, &p).expect("MACHINERY: channel connect");
+        let _ = ch.send_probe(drive::make_probe(&cell, &p, seq, 5, 0));
+        simnet::with(|w| {
+            let s = w.sent.last().expect("MACHINERY: nothing sent");
+            let l4 = &s.wire[s.l4off..];
+            let u = wire::parse_udp(l4).unwrap();
+            let ps = wire::pseudo(cell.src(), cell.dst(), wire::PROTO_UDP, l4.len());
+            println!("Paris sequence {seq}: UDP checksum field {:#06x}, verifies {}; datagram {}", u.cksum, wire::verifies(l4, ps), l4.iter().map(|b| format!("{b:02x}")).collect::<String>());
+            u.cksum == seq && wire::verifies(l4, ps)
+        })
+    };
+    let _ = simnet::take();
+    if ok {
+        println!("replay: property held");
+        0
+    } else {
+        println!("VIOLATION property=C13 replay={path}");
+        1
+    }
+}
+
 pub fn run(args: &Args) -> i32 {
+    if let Some(path) = &args.replay {
+        return replay(path);
+    }
     let tier = args.tier;
     let mut rep = Report::new("C13", tier, "exploration");
     let findings: Mutex<BTreeMap<String, Finding>> = Mutex::new(BTreeMap::new());
